@@ -44,6 +44,7 @@ type replay struct {
 	Seps    []string `json:"seps,omitempty"` // len(tokens)+1 separators (phrase mode)
 	Phrase  string   `json:"phrase,omitempty"`
 	Index   uint64   `json:"index,omitempty"`
+	History []hOp    `json:"history,omitempty"` // history mode: the calls, in order
 }
 
 type h20 struct {
@@ -330,7 +331,7 @@ func randEntropy(r *rng.R) (e [16]byte) { r.Bytes(e[:]); return }
 
 func runC20(c *hx.Ctx) {
 	res := c.Res
-	res.Rule = "entropies: BIP-39 vectors, all-zero/all-one, every single-bit pattern and its complement, uniform samples; phrases: every value of 3 word positions (all 12 in thorough; the last position always) on a seed-dependent valid base phrase, uniform 12-index sequences, forced-valid and off-by-one-nibble sequences, wrong counts, non-list tokens, whitespace variants; derivation over boundary and random indices, sequentially and from 12 (thorough: 16) goroutines at once, every concurrent result compared with the sequential reference. non-trivial := encode of a non-zero entropy, or decode of exactly twelve list words (reaches the checksum comparison); distinct by entropy / token text"
+	res.Rule = "entropies: BIP-39 vectors, all-zero/all-one, every single-bit pattern and its complement, uniform samples; phrases: every value of 3 word positions (all 12 in thorough; the last position always) on a seed-dependent valid base phrase, uniform 12-index sequences, forced-valid and off-by-one-nibble sequences, wrong counts, non-list tokens, whitespace variants; derivation over boundary and random indices, sequentially and from 12 (thorough: 16) goroutines at once, every concurrent result compared with the sequential reference; call histories on reused seed arrays (load, derive, overwrite in place by SeedFromPhrase / by hand, derive the same index again, other arrays in between; directed and random, sequential and from 8 goroutines), every key compared with the oracle for the array's current contents. non-trivial := encode of a non-zero entropy, or decode of exactly twelve list words (reaches the checksum comparison); distinct by entropy / token text"
 	h := &h20{c: c, res: res, index: map[string]int{}, keySeen: map[string]string{}, maxCoq: c.Scale(4000, 100000)}
 	h.words = wallet.VerifBIP39WordList()
 	if !checkWordList(h) {
@@ -444,6 +445,9 @@ func runC20(c *hx.Ctx) {
 	// 9. the same derivations from many goroutines at once
 	runConcurrency(h, r)
 
+	// 10. call histories: seed arrays reused and overwritten in place, the same index again
+	runHistories(h, r)
+
 	res.Exhaustive = true // the single-position sweeps and single-bit patterns are enumerated, not sampled
 	res.Sample(map[string]any{"entropy": "00000000000000000000000000000000", "phrase": first(realEncode(zero))})
 	e := randEntropy(r)
@@ -486,6 +490,8 @@ func (h *h20) replay(path string) {
 		checkWhitespace(h, ts, p.Seps)
 	case "derive":
 		checkDerivation(h, e, []uint64{p.Index})
+	case "history":
+		h.checkHistory(p.History, true, "replay")
 	case "concurrent": // the schedule is not replayable: the whole concurrent stage is run again
 		runConcurrency(h, h.c.R)
 	case "vector":
